@@ -271,6 +271,10 @@ class IRGenerator:
 
         self._item_by_canonical_name = {}
 
+        # (referenced type, location) of every `T?`; checked again once all
+        # aliases are resolved.
+        self._nullable_refs = []
+
         self._patch_data_by_canonical_name = {}
 
         self._routes = route_whitelist_filter
@@ -785,6 +789,14 @@ class IRGenerator:
                 self._resolution_in_progress.remove(data_type)
 
         assert len(self._resolution_in_progress) == 0
+
+        # An alias that is declared later (or in a namespace processed
+        # later) had no target yet when `Alias?` was resolved.
+        for data_type, loc in self._nullable_refs:
+            if isinstance(unwrap_aliases(data_type)[0], Nullable):
+                raise InvalidSpec(
+                    'Cannot mark reference to nullable type as nullable.',
+                    *loc)
 
     def _populate_struct_type_attributes(self, env, data_type):
         """
@@ -1316,6 +1328,7 @@ class IRGenerator:
                 raise InvalidSpec(
                     'Cannot mark reference to nullable type as nullable.',
                     *loc)
+            self._nullable_refs.append((data_type, loc))
             data_type = Nullable(data_type)
 
         return data_type
